@@ -56,6 +56,7 @@ type Contract struct {
 	Loops      map[int]*LoopSpec
 	At         []AtAssert
 	Unreach    []int // block indices declared unreachable (cover guard)
+	AssumeNoPanic []string
 	Abstract   bool  // body translated with havoc tolerance; only listed obligations
 	Uses       map[string]bool
 	Lemmas     []Clause // proved lemma instances assumed at entry
@@ -70,7 +71,7 @@ type Contract struct {
 
 var clauseKW = map[string]bool{"requires": true, "ensures": true, "modifies": true, "nopanic": true, "maypanic": true,
 	"panics_when": true, "trusted": true, "pure": true, "noalloc": true, "mayalloc": true, "terminates": true, "decreases": true, "alloc": true,
-	"loop": true, "at": true, "func": true, "extern": true, "pkg": true, "uses": true, "abstract": true, "unreachable": true, "lemma": true, "lemma_ret": true, "pred": true, "global": true}
+	"loop": true, "at": true, "func": true, "extern": true, "pkg": true, "uses": true, "abstract": true, "unreachable": true, "lemma": true, "lemma_ret": true, "pred": true, "global": true, "assume_nopanic": true}
 
 var reImp = regexp.MustCompile(`<==>|==>`)
 
@@ -293,7 +294,7 @@ func ParseContractFile(path, defaultPkg string) ([]*Contract, error) {
 			// global EXPR : invariant over package-level variables that are assigned only by
 			// the package initialiser (checked syntactically); assumed at every function entry
 			gn++
-			gc := &Contract{Pkg: pkg, Name: fmt.Sprintf("global %d", gn), Loops: map[int]*LoopSpec{}, Uses: map[string]bool{}, File: path, Line: ln, IsPred: true, IsGlobal: true}
+			gc := &Contract{Pkg: pkg, Name: fmt.Sprintf("global %s#%d", filepath.Base(path), gn), Loops: map[int]*LoopSpec{}, Uses: map[string]bool{}, File: path, Line: ln, IsPred: true, IsGlobal: true}
 			cur = gc
 			out = append(out, cur)
 			pend = &pending{kw: "predbody", rest: rest, line: ln}
@@ -399,6 +400,10 @@ func (c *Contract) addClause(kw, rest, path string, line int) error {
 		} else {
 			c.LemmasRet = append(c.LemmasRet, cl)
 		}
+	case "assume_nopanic":
+		// assume_nopanic <substring of callee description>: calls without contract matching it
+		// are assumed not to panic (listed as an assumption in the evidence)
+		c.AssumeNoPanic = append(c.AssumeNoPanic, strings.TrimSpace(rest))
 	case "nopanic":
 	case "maypanic":
 		c.MayPanic = true
